@@ -584,7 +584,11 @@ impl Blockchain {
                 && !configs.is_spv_mode()
             {
                 // TODO : this will have an impact when the block sizes are getting large or there are many forks. need to handle this
-                storage.write_block_to_disk(block).await;
+                // a block that was just loaded from disk is already there. rewriting it in place
+                // would expose the file to a crash in the middle of the write
+                if !block.force_loaded {
+                    storage.write_block_to_disk(block).await;
+                }
 
                 let writing_interval = configs
                     .get_blockchain_configs()
